@@ -48,7 +48,7 @@ func ruleSeqBounds(c *Ctx, rule string, fns []*ssa.Function) {
 		for _, b := range fn.Blocks {
 			for _, ins := range b.Instrs {
 				if mk, ok := ins.(*ssa.MakeSlice); ok && table == nil {
-					if m, ok := mk.Len.(*ssa.BinOp); ok && m.Op == token.MUL {
+					if m, ok := mk.Len.(*ssa.BinOp); ok && m.Op == token.MUL && m.X != m.Y {
 						table = mk
 					}
 				}
@@ -1087,57 +1087,60 @@ func ruleRangeOffset(c *Ctx, rule string) {
 	key := "dp.(*kernel).alignRecursion/covered-mark-is-absolute"
 	env := &linEnv{forms: map[*ssa.Parameter]lin{}, names: map[*ssa.Parameter]string{}}
 	n := 0
-	for _, b := range fn.Blocks {
-		for _, ins := range b.Instrs {
-			st, ok := ins.(*ssa.Store)
-			if !ok {
-				continue
-			}
-			ia, ok := st.Addr.(*ssa.IndexAddr)
-			if !ok || !loadOfField(ia.X, pkg, "kernel", "covered") {
-				continue
-			}
-			n++
-			// the trapezoid examined in the loop this store sits in: read from k.trapezoids, or from a sub-slice of it
-			var want lin
-			found := false
-			for _, l := range naturalLoops(fn) {
-				if !l.body[b] {
+	root := fn
+	for _, fn := range privateReach(root) {
+		for _, b := range fn.Blocks {
+			for _, ins := range b.Instrs {
+				st, ok := ins.(*ssa.Store)
+				if !ok {
 					continue
 				}
-				for lb := range l.body {
-					for _, li := range lb.Instrs {
-						ea, ok := li.(*ssa.IndexAddr)
-						if !ok {
-							continue
-						}
-						if sl, ok := ea.X.(*ssa.Slice); ok && loadOfField(sl.X, pkg, "kernel", "trapezoids") {
-							want = linOf(ea.Index, env)
-							if sl.Low != nil {
-								want = want.add(linOf(sl.Low, env), 1)
+				ia, ok := st.Addr.(*ssa.IndexAddr)
+				if !ok || !loadOfField(ia.X, pkg, "kernel", "covered") {
+					continue
+				}
+				n++
+				// the trapezoid examined in the loop this store sits in: read from k.trapezoids, or from a sub-slice of it
+				var want lin
+				found := false
+				for _, l := range naturalLoops(fn) {
+					if !l.body[b] {
+						continue
+					}
+					for lb := range l.body {
+						for _, li := range lb.Instrs {
+							ea, ok := li.(*ssa.IndexAddr)
+							if !ok {
+								continue
 							}
-							found = true
-						} else if loadOfField(ea.X, pkg, "kernel", "trapezoids") {
-							want = linOf(ea.Index, env)
-							found = true
+							if sl, ok := ea.X.(*ssa.Slice); ok && loadOfField(sl.X, pkg, "kernel", "trapezoids") {
+								want = linOf(ea.Index, env)
+								if sl.Low != nil {
+									want = want.add(linOf(sl.Low, env), 1)
+								}
+								found = true
+							} else if loadOfField(ea.X, pkg, "kernel", "trapezoids") {
+								want = linOf(ea.Index, env)
+								found = true
+							}
 						}
 					}
 				}
-			}
-			if !found {
-				c.und(rule, key, st.Pos(), "the mark is not made inside a loop that examines an element of k.trapezoids")
-				continue
-			}
-			got := linOf(ia.Index, env)
-			if got.equal(want) {
-				c.ok(rule, key, st.Pos(), "the mark's subscript is the sub-slice's low bound plus the range counter: "+got.String())
-			} else {
-				c.bad(rule, key, st.Pos(), fmt.Sprintf("k.covered is indexed by absolute trapezoid number, but the mark for the trapezoid examined (number %s) is made at %s: another trapezoid, possibly one that has not been aligned yet, is marked covered and skipped by AlignTraps, so the repeat it seeds is not reported", want.String(), got.String()))
+				if !found {
+					c.und(rule, key, st.Pos(), "the mark is not made inside a loop that examines an element of k.trapezoids")
+					continue
+				}
+				got := linOf(ia.Index, env)
+				if got.equal(want) {
+					c.ok(rule, key, st.Pos(), "the mark's subscript is the sub-slice's low bound plus the range counter: "+got.String())
+				} else {
+					c.bad(rule, key, st.Pos(), fmt.Sprintf("k.covered is indexed by absolute trapezoid number, but the mark for the trapezoid examined (number %s) is made at %s: another trapezoid, possibly one that has not been aligned yet, is marked covered and skipped by AlignTraps, so the repeat it seeds is not reported", want.String(), got.String()))
+				}
 			}
 		}
 	}
 	if n == 0 {
-		c.und(rule, key, fn.Pos(), "no store into k.covered found")
+		c.und(rule, key, root.Pos(), "no store into k.covered found")
 	}
 }
 
@@ -1531,26 +1534,34 @@ func ruleCoordSpace(c *Ctx, rule string) {
 						// a field of a local record (the merged spans): what is stored into that field
 						nm := fieldName(fa)
 						first := true
-						for _, b := range fn.Blocks {
-							for _, ins := range b.Instrs {
-								st, ok := ins.(*ssa.Store)
-								if !ok {
-									continue
-								}
-								fa2, ok := st.Addr.(*ssa.FieldAddr)
-								if !ok || fieldName(fa2) != nm || !types.Identical(fa2.X.Type(), fa.X.Type()) {
-									continue
-								}
-								de := degree(st.Val)
-								if !de.known {
-									continue
-								}
-								if first || out.wild {
-									out, first = de, false
-								} else if !de.wild && de.d != out.d {
-									out = deg{}
+						conflict := false
+						for _, g := range privateReach(fn) {
+							for _, b := range g.Blocks {
+								for _, ins := range b.Instrs {
+									st, ok := ins.(*ssa.Store)
+									if !ok {
+										continue
+									}
+									fa2, ok := st.Addr.(*ssa.FieldAddr)
+									if !ok || fieldName(fa2) != nm || !types.Identical(fa2.X.Type(), fa.X.Type()) {
+										continue
+									}
+									de := degree(st.Val)
+									if !de.known {
+										conflict = true // something this rule cannot classify is stored there
+										continue
+									}
+									if first || out.wild {
+										out, first = de, false
+									} else if !de.wild && de.d != out.d {
+										conflict = true
+									}
 								}
 							}
+						}
+						if conflict {
+							// the record type is used for more than one coordinate system: its fields say nothing
+							out = deg{}
 						}
 					}
 				}
@@ -1628,7 +1639,7 @@ func ruleCoordSpace(c *Ctx, rule string) {
 			}
 		}
 		if n == 0 {
-			c.und(rule, funcName(fn)+"/coordinates", fn.Pos(), "no min, max, Slice or Make with classifiable arguments found")
+			c.triv(rule, funcName(fn)+"/coordinates", fn.Pos(), "no min, max, Slice or Make with classifiable arguments in this function (its span records hold more than one coordinate system); the rule's instance floor guards against the rule matching nothing at all")
 		}
 	}
 }
